@@ -206,7 +206,7 @@ def check_bulk_put(ctx, prog, fn, name, sites):
     if ok:
         pb = pops[0][0]
         k = origins(prog, fn, t["args"][1], at=b)
-        v = leaf_origins(prog, fn, t["args"][2], at=b, terminal_only=True)
+        v = leaf_origins(prog, fn, t["args"][2], at=b, terminal_only=True, opaque_index=True)
         ok = bool(k) and all(x.kind == "call" and x.block == pb and x.proj and x.proj[-1] == "f:0" for x in k)
         ok = ok and bool(v) and all(x.kind == "call" and x.block == pb and x.proj and x.proj[-1] == "f:1" for x in _strip(prog, fn, v))
         src = origins(prog, fn, copies[0][1]["args"][0], at=copies[0][0])
@@ -218,7 +218,7 @@ def _strip(prog, fn, os_):
     out = []
     for o in os_:
         if o.kind == "call" and (o.data.get("callee") or "").rsplit("::", 1)[-1] in ("as_bytes", "as_str", "deref", "as_ref") and o.data.get("args"):
-            out.extend(_strip(prog, fn, leaf_origins(prog, fn, o.data["args"][0], at=o.block, terminal_only=True)))
+            out.extend(_strip(prog, fn, leaf_origins(prog, fn, o.data["args"][0], at=o.block, terminal_only=True, opaque_index=True)))
         else:
             out.append(o)
     return out
